@@ -62,6 +62,40 @@ def field_read(code, length, F):
     sx.reach("read")
 
 
+def field_reread(code, length, F, how):
+    """the value read is a function of the frame held *now*: after a variable has been read, a second frame (received
+    with any timestamp, also the same one - interfaces without hardware stamps, replayed logs - or assigned to
+    map.data) is decoded afresh"""
+    name, signed = _field_cfg(code, length)
+    node = _node()
+    m = node.tpdo[1]
+    m.clear()
+    var = m.add_variable(C.TYPE_INDEX[code], 0, length)
+    off = sx.fresh_int("off", 0, 8 * F - length)
+    var.offset = off
+    m.cob_id = 0x181
+    f1, f2 = sx.fresh_bytes("f1", F), sx.fresh_bytes("f2", F)
+    ts1 = sx.fresh_int("ts1", 0, 1 << 40)
+    ts2 = sx.fresh_int("ts2", 0, 1 << 40)
+    m.data = _ba(sx.fresh_bytes("z", F)) if sx.symbolic() else sx.mod("builtins").bytearray(F)
+
+    def field(frame):
+        v = (_frame_int(sx.items(frame)) >> off) & ((1 << length) - 1)
+        if signed:
+            v = v - (((v >> (length - 1)) & 1) << length)
+        return v
+    key = "C05/reread/%s/len%d/%s" % (name, length, how)
+    m.on_message(0x181, sx.new_bytearray(sx.items(f1)), ts1)
+    sx.prove(var.raw == field(f1), "first frame", key + "/first")
+    if how == "receive":
+        m.on_message(0x181, sx.new_bytearray(sx.items(f2)), ts2)
+    else:
+        m.data = _ba(f2) if sx.symbolic() else sx.mod("builtins").bytearray(f2)
+    sx.prove(var.raw == field(f2), "second frame is decoded afresh", key + "/second")
+    sx.prove(var.raw == field(f2), "and read again", key + "/second")
+    sx.reach("reread")
+
+
 def _ba(frame):
     from symx.symbytes import SymByteArray
     return SymByteArray(sx.items(frame))
@@ -328,6 +362,9 @@ def _configs():
 
 def jobs(tier):
     out = []
+    for code, length in ((0x06, 16), (0x02, 3), (0x07, 32), (0x03, 16)):
+        for how in ("receive", "assign"):
+            out.append(dict(func="field_reread", params=dict(code=code, length=length, F=8, how=how), weight=5))
     for code, ln in _configs():
         for F in range(1, 9):
             if 8 * F < ln:
@@ -381,7 +418,7 @@ META = dict(
     assumptions=["offset/length attributes set directly on the PdoVariable for the field harness (the layout "
                  "harness proves add_variable computes them as the running sum)"],
     stubs=["struct", "bytes", "bytearray", "math.ceil on exact rationals", "logging -> null"],
-    required_reach=["read", "write", "layout", "own-length", "layout-step", "layout-concrete", "layout-mixed", "layout-reread"],
+    required_reach=["reread", "read", "write", "layout", "own-length", "layout-step", "layout-concrete", "layout-mixed", "layout-reread"],
     limits=dict(quick=dict(query_timeout_ms=60000), thorough=dict(query_timeout_ms=300000, crosscheck_every=5, crosscheck_max=30)),
     validate_every=dict(quick=3, thorough=1),
 )
